@@ -319,7 +319,7 @@ def run(R):
             ex = R.executor(F)
             ex.keep_dead_entry_locals = True        # the repeat counter is read at the return
             ex.product_step = True                  # bounds of the form N * count <= len need one product step
-            ex.conserved_coeffs = [sym_int("const N", F.pointer_bits, False), -sym_int("const N", F.pointer_bits, False)]
+            ex.conserved_coeffs = [sym_int("const N", F.pointer_bits, False), -sym_int("const N", F.pointer_bits, False), Poly.const(-1)]
             ln = sym_int("len(*self.buffer)", F.pointer_bits, False)
             nn = sym_int("const N", F.pointer_bits, False)
             res = R.run_entry(ex, rec, assume=[ln - nn, nn - 1, Poly.const((1 << 32) - 1) - ln])
